@@ -18,7 +18,6 @@ Example:
 
 from __future__ import annotations
 
-import collections
 import itertools
 import logging
 import re
@@ -149,7 +148,7 @@ class Chart(DictPropertiesEqMixin, DictReprTruncatedSequencesMixin):
             str, tuple[Instrument, Difficulty]
         ] = {d.value + i.value: (i, d) for i, d in itertools.product(Instrument, Difficulty)}
 
-        instrument_tracks = InstrumentTrackMap(collections.defaultdict(dict))
+        instrument_tracks = InstrumentTrackMap(dict())
         for header_tag, data_section_lines in data_sections.items():
             if header_tag in instrument_track_name_to_instrument_difficulty_pair:
                 instrument_difficulty_pair = instrument_track_name_to_instrument_difficulty_pair[
@@ -164,7 +163,7 @@ class Chart(DictPropertiesEqMixin, DictReprTruncatedSequencesMixin):
                     data_section_lines,
                     sync_track.bpm_events,
                 )
-                instrument_tracks[instrument][difficulty] = track
+                instrument_tracks.setdefault(instrument, dict())[difficulty] = track
             elif header_tag not in cls._required_header_tags:
                 logger.warning(cls._unhandled_data_section_log_msg_tmpl.format(header_tag))
 
